@@ -33,6 +33,8 @@ def run(prog, chk):
         "the above / below anchor filters of abvm / blwm are complementary by construction and each feature uses its own (R06.13)",
         "the ligature component number is the whole trailing run of digits of the anchor name (regex AST of LIGA_NUM_RE) (R06.14)",
     ]
+    chk.decided += ["the mark-class conflict graph is complete and symmetric: for every mark glyph, every pair of its classes is connected in both directions before the graph is coloured "
+                    "(two classes of one glyph never share a lookup, where only one of them could apply) (R06.16)"]
     chk.decided += ["every collected contextual anchor reaches a contextual lookup: the three contextual tables are enumerated in full (no glyph filter: the abvm / blwm builder makes no contextual lookups), "
                     "every (glyph, anchor) pair is turned into a statement and every group is handed to the lookup builder (R06.15)"]
     chk.not_decided += ["the offsets a shaper computes", "lookup grouping / graph colouring result", "which script a glyph is routed to (abvm / blwm classification data)", "contextual anchors' generated rules"]
@@ -50,6 +52,7 @@ def run(prog, chk):
     chk.guard(r0613, prog, chk)
     chk.guard(r0614, prog, chk)
     chk.guard(r0615, prog, chk)
+    chk.guard(r0616, prog, chk)
     from .rounding import check_no_truthiness_on_coordinates
     n = check_no_truthiness_on_coordinates(prog, chk, "R06.9", [MARK, "ufo2ft.featureWriters.baseFeatureWriter"])
     need(n >= 40, "truthiness scan found too few tests")
@@ -821,7 +824,44 @@ def r0615(prog, chk):
     chk.minimum("R06.15", 7)
 
 
+# ----------------------------------------------------------------------------- R06.16
+def r0616(prog, chk):
+    ix = prog.ix
+    f = ix.get_method(f"{MARK}.MarkFeatureWriter", "_groupMarkClasses", own=True)
+    cg = [c for c in A.body_nodes(f.node) if isinstance(c, ast.Call) and A.callee_name(c) == "colorGraph"]
+    need(len(cg) == 1 and cg[0].args and isinstance(cg[0].args[0], ast.Name), f"cannot interpret {f.short}: colorGraph call")
+    adj = cg[0].args[0].id
+    adds = [c for c in A.body_nodes(f.node) if isinstance(c, ast.Call) and isinstance(c.func, ast.Attribute) and c.func.attr == "add" and isinstance(c.func.value, ast.Subscript)
+            and isinstance(c.func.value.value, ast.Name) and c.func.value.value.id == adj and len(c.args) == 1]
+    ok = len(adds) == 2
+    detail = "; ".join(T(a) for a in adds)
+    if ok:
+        loops = [a for a in ix.ancestors(adds[0]) if isinstance(a, ast.For)]
+        ok = bool(loops) and all(any(a is loops[0] for a in ix.ancestors(x)) for x in adds)
+        if ok:
+            lp = loops[0]
+            pair = [T(x) for x in lp.target.elts] if isinstance(lp.target, ast.Tuple) and len(lp.target.elts) == 2 else []
+            it = lp.iter
+            okc = isinstance(it, ast.Call) and A.callee_name(it) == "combinations" and len(it.args) == 2 and A.is_const(it.args[1], 2)
+            dirs = {(T(a.func.value.slice), T(a.args[0])) for a in adds}
+            ok = okc and len(pair) == 2 and dirs == {(pair[0], pair[1]), (pair[1], pair[0])}
+            # unconditional inside the pair loop, and the pairs come from one mark glyph's classes, for every mark glyph
+            ok = ok and not any(g.kind in ("if", "boolop", "ifexp", "while") and any(a is lp for a in ix.ancestors(g.loc)) for x in adds for g in may_conds(prog, f, x))
+            outer = [a for a in ix.ancestors(lp) if isinstance(a, ast.For)]
+            ok = ok and len(outer) == 1 and _enum_root(prog, f, outer[0].iter) is not None and T(_enum_root(prog, f, outer[0].iter)) == f.params()[1] \
+                and isinstance(outer[0].target, ast.Tuple) and T(it.args[0]) == T(outer[0].target.elts[1]) \
+                and not any(isinstance(n, (ast.Continue, ast.Break)) for n in ast.walk(outer[0]))
+    chk.ob("R06.16", f"{f.short}|every pair of classes of one mark glyph is connected in both directions", ok, where(f, adds[0]) if adds else where(f), detail=detail,
+           message=f"{f.short}: the conflict graph given to colorGraph is not complete / symmetric ({detail or 'no edges'}): two mark classes of one glyph can be coloured alike and end "
+                   f"up in one lookup, where the glyph can only carry one of them - the other attachment is lost")
+    chk.minimum("R06.16", 1)
+
+
 MUTANTS = [
+    M("conflict edges added in one direction only (mutation scan 3, k=120)", "ufo2ft/featureWriters/markFeatureWriter.py", "MarkFeatureWriter._groupMarkClasses",
+      "adjacency[markClass].add(other)\nadjacency[other].add(markClass)", "adjacency[markClass].add(other)", rule="R06.16"),
+    M("only adjacent classes of a glyph conflict", "ufo2ft/featureWriters/markFeatureWriter.py", "MarkFeatureWriter._groupMarkClasses",
+      "itertools.combinations(markClasses, 2)", "zip(markClasses, markClasses[1:])", rule="R06.16"),
     M("contextual anchors filtered by the not-abvm predicate (seeded C06i)", "ufo2ft/featureWriters/markFeatureWriter.py", "MarkFeatureWriter._makeMkmkFeature",
       "for glyphName, anchor in glyph_anchor_pair:\n    attachments[anchor.key].append(MarkToMarkPos(glyphName, [anchor]))",
       "for glyphName, anchor in glyph_anchor_pair:\n    if include(glyphName):\n        attachments[anchor.key].append(MarkToMarkPos(glyphName, [anchor]))", rule="R06.15"),
